@@ -2484,6 +2484,7 @@ class Deb822DuplicateFieldsParagraphElement(Deb822ParagraphElement):
                 self._kvpair_elements[key] = [node]
             else:
                 self._kvpair_elements[key].append(node)
+            value.parent_element = self
             return
 
         replace_all = False
